@@ -52,6 +52,11 @@ theorem xml_lex_roundtrip : type_of% @Verif.Proofs.C09Xml.xml_lex_roundtrip := @
 theorem xml_output_relexes_partial : type_of% @Verif.Proofs.C09Xml.xml_output_relexes_partial :=
   @Verif.Proofs.C09Xml.xml_output_relexes_partial
 
+/-- the stream read back has exactly the markup skeleton (tags, attributes, CDATA, DOCTYPE, PI targets) and the bytes
+    of the emitted stream -/
+theorem xml_output_markup_exact : type_of% @Verif.Proofs.C09Xml.xml_output_markup_exact :=
+  @Verif.Proofs.C09Xml.xml_output_markup_exact
+
 /-- the unguarded flagship statement is false: `<a><?x k="?&gt;"?></a>` → `<a><?x k="?>"?></a>` (K-C09-Xml-1) -/
 theorem xml_output_relexes_counterexample : type_of% @Verif.Proofs.C09Xml.xml_output_relexes_counterexample :=
   @Verif.Proofs.C09Xml.xml_output_relexes_counterexample
